@@ -214,6 +214,7 @@ func registerIntrinsics() {
 		}
 		return r, nDone
 	})
+	reg("vxJitter", func(in *Interp, cc *callCtx, args []Value) (Value, nativeStatus) { return nil, nDone })
 	reg("vxLock", func(in *Interp, cc *callCtx, args []Value) (Value, nativeStatus) { return nil, nDone })
 	reg("vxUnlock", func(in *Interp, cc *callCtx, args []Value) (Value, nativeStatus) { return nil, nDone })
 	reg("vxSymbolic", func(in *Interp, cc *callCtx, args []Value) (Value, nativeStatus) {
